@@ -387,6 +387,21 @@ def check(ctx):
     if n11 < 10:
         raise AnalysisError('C01.R11 found only %d conversion pairs' % n11)
 
+    # ---- R12: the bit-field primitive of the PER and OER encoders, evaluated (sa/bitmachine.py) on fields that carry more octets than the bits need:
+    #      BIT STRING values are handed to it as the user gave them (the type check asks for "at least n bits")
+    ctx.rule('C01.R12', 'Encoder.append_bits writes exactly the first n bits of the data it is handed (bounded evaluation of the method body)')
+    from .. import bitmachine
+    for rel in ('asn1tools/codecs/per.py', 'asn1tools/codecs/oer.py'):
+        ecls = model.mod(rel).classes.get('Encoder')
+        fe = ecls.methods.get('append_bits') if ecls else None
+        if fe is None:
+            raise AnalysisError('%s: Encoder.append_bits vanished' % rel)
+        n_ok, n_und, bad_, und_ = bitmachine.check_append_bits(model, ecls)
+        ctx.instance('C01.R12', '%s: %d cases evaluated, %d undecided' % (Model.qual(fe), n_ok, n_und), 'VIOLATION' if bad_ else ('ok' if n_ok else 'undecided'), und_ or '',
+                     nontrivial=n_ok > 0, node=fe, file=rel)
+        if bad_:
+            ctx.violation('C01.R12', rel, fe, Model.qual(fe), '%s: %s -- the bits written before the field are corrupted and the decoder reads another value' % bad_, stmt='bit field (append_bits)')
+
 
 MUTANTS = [
     dict(name='addition group reset on all-zero bits alone', file=PER,
@@ -480,3 +495,9 @@ MUTANTS.append(dict(name='BER explicit tag decodes its contents with the inner c
 MUTANTS.append(dict(name='DER INTEGER contents read as unsigned', file='asn1tools/codecs/der.py',
                     old="        return int.from_bytes(data[offset:end_offset], byteorder='big', signed=True), end_offset",
                     new="        return int.from_bytes(data[offset:end_offset], byteorder='big', signed=False), end_offset", expect='C01.R11'))
+
+MUTANTS.append(dict(name='PER append_bits assumes exactly ceil(n / 8) octets of data', file=PER,
+                    old="""        value = int(binascii.hexlify(data), 16)
+        value >>= (8 * len(data) - number_of_bits)
+""", new="""        value = (int.from_bytes(data, 'big') >> (-number_of_bits % 8))
+""", expect='C01.R12'))
